@@ -49,6 +49,7 @@ func preview(b []byte) string {
 }
 
 func genRaw(t *rapid.T) Case {
+	corpus.OddTextParsed()
 	n := rapid.IntRange(0, 40).Draw(t, "n")
 	var buf bytes.Buffer
 	for i := 0; i < n; i++ {
@@ -118,6 +119,7 @@ func mutate(t *rapid.T, s string) string {
 }
 
 func genMut(t *rapid.T) Case {
+	corpus.OddTextParsed()
 	qs := corpus.Queries()
 	q := qs[rapid.IntRange(0, len(qs)-1).Draw(t, "q")]
 	s := mutate(t, q)
@@ -140,6 +142,7 @@ func loadGrammar(t *testing.T) *g4.Grammar {
 
 func genG4(g *g4.Grammar) func(t *rapid.T) Case {
 	return func(t *rapid.T) Case {
+		corpus.OddTextParsed()
 		d := g.Query(t)
 		s := d.Text
 		if rapid.IntRange(0, 3).Draw(t, "mutate") == 0 {
